@@ -8,13 +8,16 @@ import (
 	"testing"
 
 	hccrypto "github.com/brutella/hc/crypto"
+	"github.com/brutella/hc/hap"
 	"pgregory.net/rapid"
+	"verifharness/fixture"
 	"verifharness/refctl"
 	"verifharness/stats"
 )
 
 func TestMain(m *testing.M) {
 	code := m.Run()
+	fixture.Cleanup()
 	stats.Flush()
 	os.Exit(code)
 }
@@ -538,4 +541,147 @@ func TestC05FramePerms(t *testing.T) {
 			}
 		}
 	}
+}
+
+// ---- connection level (hap.Connection.Read over a scripted conn) ----
+
+func judgeConn(b *built, altered []byte, cuts []int) (class string, err error) {
+	m, off := 0, 0
+	for _, f := range b.frames {
+		if off+len(f) <= len(altered) && bytes.Equal(altered[off:off+len(f)], f) {
+			m++
+			off += len(f)
+		} else {
+			break
+		}
+	}
+	isPrefix := off == len(altered)
+	// segmentation of the altered stream
+	cutSet := map[int]bool{}
+	for _, c := range cuts {
+		if len(altered) > 0 {
+			cutSet[1+c%len(altered)] = true
+		}
+	}
+	var script []fixture.Event
+	last := 0
+	for i := 1; i <= len(altered); i++ {
+		if cutSet[i] || i == len(altered) {
+			script = append(script, fixture.Event{Data: altered[last:i]})
+			last = i
+		}
+	}
+	ctx, _, _ := fixture.SharedContext()
+	conn := fixture.NewScriptConn(script)
+	conn.EOFAtEnd = true // the adversary closes the stream after the altered bytes
+	hc := hap.NewConnection(conn, ctx)
+	defer hc.Close()
+	ctx.GetSessionForConnection(conn).SetCryptographer(b.receiver)
+
+	var released []byte
+	var firstErr error
+	afterErr := 0
+	func() {
+		defer func() {
+			if r := recover(); r != nil {
+				err = fmt.Errorf("Read panicked on an altered stream: %v", r)
+			}
+		}()
+		for calls := 0; calls < 5000; calls++ {
+			buf := make([]byte, 4096)
+			n, e := hc.Read(buf)
+			if firstErr != nil && n > 0 {
+				err = fmt.Errorf("Read released %d more bytes after it had reported %q", n, firstErr)
+				return
+			}
+			released = append(released, buf[:n]...)
+			if e != nil {
+				if firstErr == nil {
+					firstErr = e
+				}
+				afterErr++
+				if afterErr > 3 {
+					return
+				}
+			}
+		}
+		if firstErr == nil {
+			err = fmt.Errorf("5000 reads without reaching the end of the stream")
+		}
+	}()
+	if err != nil {
+		return "conn:failed", err
+	}
+	ok := len(released) == 0
+	var acc []byte
+	for k := 1; k <= m && !ok; k++ {
+		acc = append(acc, b.plains[k-1]...)
+		if bytes.Equal(acc, released) {
+			ok = true
+		}
+	}
+	if !ok {
+		return "conn:released-wrong", fmt.Errorf("connection released %d bytes that are not the plaintext of a prefix of the %d unmodified leading frames", len(released), m)
+	}
+	if isPrefix {
+		if m == len(b.frames) && len(released) != len(cat2(b.plains)) {
+			return "conn:false-reject", fmt.Errorf("unaltered stream: only %d of %d bytes released (%v)", len(released), len(cat2(b.plains)), firstErr)
+		}
+		return "conn:prefix-at-frame-boundary", nil
+	}
+	// altered: the error must be a real one, not just the end of the stream after releasing altered data
+	if firstErr == nil {
+		return "conn:undetected", fmt.Errorf("altered stream consumed without error")
+	}
+	return "conn:detected", nil
+}
+
+func cat2(ps [][]byte) []byte {
+	var out []byte
+	for _, p := range ps {
+		out = append(out, p...)
+	}
+	return out
+}
+
+func TestC05Conn(t *testing.T) {
+	fixture.Quiet()
+	rapid.Check(t, func(t *rapid.T) {
+		var sc scenario
+		copy(sc.Secret[:], rapid.SliceOfN(rapid.Byte(), 32, 32).Draw(t, "secret"))
+		sc.Preroll = rapid.OneOf(rapid.Just(0), rapid.IntRange(0, 6), rapid.IntRange(0, 60)).Draw(t, "preroll")
+		sc.Sender = rapid.SampledFrom([]string{"ref", "ref-small", "hc"}).Draw(t, "sender")
+		sc.ToServer = true
+		n := rapid.IntRange(1, 4).Draw(t, "nplain")
+		for i := 0; i < n; i++ {
+			sc.Plain = append(sc.Plain, filler(plainLen.Draw(t, "plen"), rapid.Uint32().Draw(t, "pseed")))
+		}
+		sc.FrameSizes = rapid.SliceOfN(rapid.OneOf(rapid.IntRange(1, 40), rapid.IntRange(1, 1024)), 1, 6).Draw(t, "fsizes")
+		na := rapid.IntRange(1, 2).Draw(t, "nalts")
+		for i := 0; i < na; i++ {
+			sc.Alts = append(sc.Alts, alteration{rapid.SampledFrom(altKinds).Draw(t, "kind"), rapid.IntRange(0, 1<<20).Draw(t, "a"), rapid.IntRange(0, 1<<20).Draw(t, "b")})
+		}
+		cuts := rapid.SliceOfN(rapid.IntRange(0, 1<<16), 0, 5).Draw(t, "cuts")
+		b, err := build(sc)
+		if err != nil {
+			t.Fatalf("building the honest stream failed: %v", err)
+		}
+		altered := apply(b, sc.Alts)
+		changed := !bytes.Equal(altered, cat(b.frames))
+		class, jerr := judgeConn(b, altered, cuts)
+		classes := []string{"outcome:" + class}
+		for _, a := range sc.Alts {
+			classes = append(classes, "conn-"+a.Kind)
+		}
+		lens := []int{}
+		for _, p := range sc.Plain {
+			lens = append(lens, len(p))
+		}
+		stats.Case(stats.Hash("conn", sc.Secret[:], sc.Preroll, sc.Sender, fmt.Sprint(lens), fmt.Sprint(sc.Alts), fmt.Sprint(cuts)), changed, classes, func() interface{} {
+			return map[string]interface{}{"level": "hap.Connection", "preroll": sc.Preroll, "sender": sc.Sender, "plainLens": lens, "alterations": fmt.Sprint(sc.Alts), "segment_cuts": cuts, "outcome": class}
+		})
+		if jerr != nil {
+			t.Fatalf("%v\nscenario: preroll=%d sender=%s plainLens=%v alts=%v cuts=%v", jerr, sc.Preroll, sc.Sender, lens, sc.Alts, cuts)
+		}
+	})
 }
